@@ -28,6 +28,7 @@ var extraNotes4 = map[string][2]string{
 	"C24": {"guard rule for removals from the known set", "(G3) every knownPeers.Remove(p) is preceded in its function by connectedPeers.Remove(p) or lies behind connectedPeers.Exists(p) == false."},
 	"C37": {"error-then-dereference rule", "(S10) the pointer result of a (pointer, error) call whose arguments are peer-controlled (also through library parsers) is dereferenced only behind the edge on which that error is nil, or the pointer was tested non-nil."},
 	"C26": {"unconditional clearing", "(F2 ext) every return of Unflag is preceded by the delete of the peer's entry — a success clears the flag whatever the network status."},
+	"C04": {"exactness of the refusals", "(I3) at every constant-false return of cac.Valid the payload length is proven outside [SpanSize, ChunkSize+SpanSize] (interval analysis, which relates len(x[k:]) to len(x)): nothing else is refused without the hash comparison."},
 	"C20": {"scan-width rule", "(K1) the byte limit of the comparison loop in Proximity / ExtendedProximity starts from a constant K with K*8 >= the function's own cap (MaxPO / ExtendedPO)."},
 }
 
